@@ -536,6 +536,44 @@ func c15RunOne(t *testing.T, rng *rand.Rand, tw *vfTraceWriter, trNo int, cfg c1
 	return rec.nev, nreq, "", ""
 }
 
+// c15RunServeConnOnly: a Server that is only used through ServeConn (Serve is never called, so it has
+// no listener) with one slow handler in flight when Shutdown is called.  Direct check only.
+func c15RunServeConnOnly(cos bool) (string, string) {
+	var running atomic.Int32
+	started := make(chan struct{})
+	s := &Server{CloseOnShutdown: cos, Logger: c15NopLogger{}, Handler: func(ctx *RequestCtx) {
+		running.Add(1)
+		close(started)
+		time.Sleep(40 * time.Millisecond)
+		ctx.SetBodyString("ok")
+		running.Add(-1)
+	}}
+	pcs := fasthttputil.NewPipeConns()
+	served := make(chan struct{})
+	go func() { s.ServeConn(pcs.Conn1()); close(served) }()
+	cc := pcs.Conn2()
+	defer cc.Close()
+	cc.Write([]byte("GET / HTTP/1.1\r\nHost: x\r\n\r\n"))
+	select {
+	case <-started:
+	case <-time.After(5 * time.Second):
+		vfInfra("c15: ServeConn-only handler did not start")
+		return "", ""
+	}
+	err := s.Shutdown()
+	n := running.Load()
+	var resp Response
+	cc.SetReadDeadline(time.Now().Add(5 * time.Second))
+	resp.Read(bufio.NewReader(cc))
+	cc.Close()
+	<-served
+	if err == nil && n != 0 {
+		return fmt.Sprintf("handler-running mode=serveconn-only cos=%v", cos),
+			fmt.Sprintf("Server used only through ServeConn: Shutdown returned nil at once while %d request handler(s) were still running", n)
+	}
+	return "", ""
+}
+
 func c15WaitFor(cond func() bool, d time.Duration) bool {
 	dl := time.Now().Add(d)
 	for !cond() {
@@ -582,6 +620,12 @@ func TestVerifC15Shutdown(t *testing.T) {
 		}
 		tw.Close()
 		files = append(files, os.Getenv("VERIF_WORK")+"/"+name)
+	}
+	for _, cos := range []bool{false, true} {
+		if key, detail := c15RunServeConnOnly(cos); key != "" {
+			vfViol("direct:"+key, detail, vfRec{"scenario": "ServeConn only, one slow handler, Shutdown()"})
+		}
+		nexec++
 	}
 	vfStat(nexec, nexec, vfRec{"events": total, "requests": nreq, "trace_files": strings.Join(files, ",")})
 	vfDone()
